@@ -18,6 +18,7 @@
    run by tools/c03.py: replication worlds (writer growth, clears, full and partial upgrades, block/hash/seek requests built
    from the replica's own missing-node query, replica reopen) on crate and model, with the oracle that every honest proof is
    accepted and every held block is byte-identical to the writer's. *)
+From HC Require Import FrameGuardLib FrameGuard.
 From HC Require HonestApplyEx.
 From HC Require Import HonestApply1 HonestApply2 HonestApply3 HonestApply.
 From HC Require Import AcceptAll1 AcceptAll2 AcceptAll AcceptAllCore3 AcceptAllHist.
@@ -1678,6 +1679,104 @@ Theorem C03_offset_value :
          byte_offset_in_changeset t tf i cs = Ok (TreeRef.prefix_size bs i).
 Proof. exact offset_value. Qed.
 
+Theorem C03_frame_guard_discharged_for_honest_proofs :
+  forall cr : crypto,
+         (forall x : bytes, Datatypes.length (cr_hash cr x) = 32%nat) ->
+         forall (c : core) (d : disk) (t : mtree) (tf : file) (block hash : option req_block)
+           (seek : option req_seek) (upgrade : option req_upgrade) (vp : vproof) (v : option bytes),
+         create_valueless_proof t tf block hash seek upgrade = Ok vp ->
+         (Datatypes.length (t_roots (c_tree c)) <= 64)%nat -> frame_guard cr c d (vp_to_proof vp v).
+Proof. exact frame_guard_discharged. Qed.
+
+Theorem C03_honest_round_without_frame_premise :
+  forall cr : crypto,
+         OplogFacts.crc_ok cr ->
+         (forall x : bytes, Datatypes.length (cr_hash cr x) = 32%nat) ->
+         (forall x : bytes, all_zero (cr_hash cr x) = false) ->
+         (forall x : bytes, bytes_ok (cr_hash cr x) = true) ->
+         forall bs : list bytes,
+         writer_fits bs ->
+         forall (f : option bool) (cw : core) (dw : disk) (bw : list bytes) (sg : bytes) 
+           (jw : list sop) (evw : list event) (c : core) (d : disk) (j : list sop) 
+           (ev : list event) (H : N -> bool) (rq : request),
+         let w := N.of_nat (Datatypes.length bw) in
+         let pk := kp_public (c_keypair c) in
+         writer_at cr bs cw dw bw pk sg ->
+         RCInv cr bs c d H ->
+         t_length (c_tree c) <= w ->
+         wf_request bs (c_tree c) (d_tree d) w rq ->
+         exists (pf : proof) (cs : changeset) (c' : core) (w' : world),
+           core_create_proof (rq_block rq) (rq_hash rq) (rq_seek rq) (rq_upgrade rq) cw
+             {| w_disk := dw; w_journal := jw; w_events := evw |} =
+           (cw, {| w_disk := dw; w_journal := jw; w_events := evw |}, Ok (Some pf)) /\
+           verifier_says cr c {| w_disk := d; w_journal := j; w_events := ev |} pf = Ok cs /\
+           core_apply_proof cr f pf c {| w_disk := d; w_journal := j; w_events := ev |} = (c', w', Ok true) /\
+           RCInv cr bs c' (w_disk w') (held_rq H rq) /\
+           t_length (c_tree c') = match rq_upgrade rq with
+                                  | Some _ => w
+                                  | None => t_length (c_tree c)
+                                  end /\
+           t_byte_length (c_tree c') = TreeRef.prefix_size bs (t_length (c_tree c')) /\
+           c_keypair c' = c_keypair c /\
+           (forall x : node,
+            In x (cs_nodes cs) ->
+            required_node (c_tree c') (d_tree (w_disk w')) (n_index x) = Ok (TreeRef.ref_at cr bs (n_index x))) /\
+           (forall k : N,
+            rq_node rq = Some k ->
+            required_node (c_tree c') (d_tree (w_disk w')) k = Ok (TreeRef.ref_at cr bs k)).
+Proof. exact honest_round_no_guard. Qed.
+
+Theorem C03_honest_replicas_converge_without_frame_premise :
+  forall cr : crypto,
+         OplogFacts.crc_ok cr ->
+         (forall x : bytes, Datatypes.length (cr_hash cr x) = 32%nat) ->
+         (forall x : bytes, all_zero (cr_hash cr x) = false) ->
+         (forall x : bytes, bytes_ok (cr_hash cr x) = true) ->
+         forall bs : list bytes,
+         writer_fits bs ->
+         forall (es : list revent) (c : core) (d : disk) (j : list sop) (ev : list event) (H : N -> bool),
+         RCInv cr bs c d H ->
+         hist_all_ng cr bs es c {| w_disk := d; w_journal := j; w_events := ev |} ->
+         exists (c' : core) (w' : world),
+           run cr es c {| w_disk := d; w_journal := j; w_events := ev |} = Some (c', w') /\
+           RCInv cr bs c' (w_disk w') (held_all H es) /\
+           c_keypair c' = c_keypair c /\
+           t_length (c_tree c') = len_all (t_length (c_tree c)) es /\
+           t_byte_length (c_tree c') = TreeRef.prefix_size bs (t_length (c_tree c')) /\
+           t_length (c_tree c) <= t_length (c_tree c') /\
+           (forall i : N, requested es i -> core_has c' i = true) /\
+           (forall i : N, H i = true -> core_has c' i = true) /\
+           (forall (i : N) (j2 : list sop) (ev2 : list event),
+            core_has c' i = true ->
+            core_get i c' {| w_disk := w_disk w'; w_journal := j2; w_events := ev2 |} =
+            (c', {| w_disk := w_disk w'; w_journal := j2; w_events := ev2 |}, Ok (Some (TreeRef.blk bs i)))).
+Proof. exact honest_replicas_converge_no_guard. Qed.
+
+Theorem C03_fresh_honest_replicas_converge_without_frame_premise :
+  forall cr : crypto,
+         OplogFacts.crc_ok cr ->
+         (forall x : bytes, Datatypes.length (cr_hash cr x) = 32%nat) ->
+         (forall x : bytes, all_zero (cr_hash cr x) = false) ->
+         (forall x : bytes, bytes_ok (cr_hash cr x) = true) ->
+         forall bs : list bytes,
+         writer_fits bs ->
+         forall (kp : keypair) (es : list revent),
+         OplogFacts.keypair_ok kp = true ->
+         kp_secret kp = None ->
+         exists (d0 : disk) (ops0 : list sop) (c0 : core),
+           core_open cr (Some kp) false disk_empty = (d0, ops0, Ok c0) /\
+           (hist_all_ng cr bs es c0 {| w_disk := d0; w_journal := []; w_events := [] |} ->
+            exists (c' : core) (w' : world),
+              run cr es c0 {| w_disk := d0; w_journal := []; w_events := [] |} = Some (c', w') /\
+              RCInv cr bs c' (w_disk w') (held_all (fun _ : N => false) es) /\
+              t_length (c_tree c') = len_all 0 es /\
+              (forall i : N, requested es i -> core_has c' i = true) /\
+              (forall (i : N) (j2 : list sop) (ev2 : list event),
+               core_has c' i = true ->
+               core_get i c' {| w_disk := w_disk w'; w_journal := j2; w_events := ev2 |} =
+               (c', {| w_disk := w_disk w'; w_journal := j2; w_events := ev2 |}, Ok (Some (TreeRef.blk bs i))))).
+Proof. exact honest_fresh_replicas_converge_no_guard. Qed.
+
 Print Assumptions C03_block_request_served.
 Print Assumptions C03_block_only_end_to_end.
 Print Assumptions C03_block_only_accepted.
@@ -1744,3 +1843,7 @@ Print Assumptions HonestApplyEx.ha_replicas_converge_applies.
 Print Assumptions HonestApplyEx.ha_round_applies.
 Print Assumptions HonestApplyEx.ha_fresh_applies.
 Print Assumptions HonestApplyEx.ha_supplied_in_changeset.
+Print Assumptions C03_frame_guard_discharged_for_honest_proofs.
+Print Assumptions C03_honest_round_without_frame_premise.
+Print Assumptions C03_honest_replicas_converge_without_frame_premise.
+Print Assumptions C03_fresh_honest_replicas_converge_without_frame_premise.
